@@ -13,6 +13,9 @@ pub struct Counters {
   pub live: i64,
   pub max_live: i64,
   pub track_subscribes: usize,
+  /// calls of the closures given to map / filter / scan
+  pub fn_calls: usize,
+  pub fut_polls: usize,
 }
 
 #[derive(Clone, Debug, PartialEq)]
